@@ -212,20 +212,24 @@ def check_vtt_case(acs, cfg, res, printed, stats):
         res["disagreements"].append(dict(base, stream="vtt", impl="document", model=repr(ms)[:300]))
         return
     cues = vtt_cues(out.v)
-    k = 0
-    for c, m in zip(lg["caps"], ms):
-        mine = cues[k:k + len(m.v)]
-        k += len(m.v)
-        if len(mine) != len(m.v) or not all(same_out(mo, cu[1], printed) for mo, cu in zip(m.v, mine)):
-            res["disagreements"].append(dict(base, stream="vtt", impl=repr(mine), model=repr(m.v)[:400]))
-            return
-        # property: separate cues for different node layouts, same times
+    # ---- property first: separate cues for different node layouts, same times (cues of a caption = cues with its timing)
+    timings = []
+    for cu in cues:
+        if cu[0] not in timings:
+            timings.append(cu[0])
+    by_time = {t: [cu for cu in cues if cu[0] == t] for t in timings}
+    if len(timings) != len(lg["caps"]):
+        res["violations"].append(dict(base, kind="vtt-cue-times", impl_obs=repr(timings),
+                                      what=f"{len(lg['caps'])} captions were written with {len(timings)} distinct timing lines"))
+        return
+    for c, t in zip(lg["caps"], timings):
+        mine = by_time[t]
         texts = [n for n in c["nodes"] if n[0] == "text"]
         if any(n[-1] is None or not any(x is not None for x in posgen.tup(n[-1])[:4]) for n in texts):
             stats["mixed"] += 1
             continue
         runs = spec_runs(c["nodes"])
-        good = len(mine) == len(runs) and len({cu[0] for cu in mine}) == 1
+        good = len(mine) == len(runs)
         if good:
             for (lay, words), cu in zip(runs, mine):
                 if not all(wd in cu[2] for wd in words):
@@ -241,6 +245,14 @@ def check_vtt_case(acs, cfg, res, printed, stats):
                                           what=f"caption with text-node layouts in {len(runs)} runs was written as "
                                                f"{len(mine)} cue(s) {[(cu[0], cu[2]) for cu in mine]!r}: not one cue per run of "
                                                f"equal layouts with the same times"))
+            return
+    # ---- correspondence with the model
+    k = 0
+    for c, m in zip(lg["caps"], ms):
+        mine = cues[k:k + len(m.v)]
+        k += len(m.v)
+        if len(mine) != len(m.v) or not all(same_out(mo, cu[1], printed) for mo, cu in zip(m.v, mine)):
+            res["disagreements"].append(dict(base, stream="vtt", impl=repr(mine), model=repr(m.v)[:400]))
             return
     if k != len(cues):
         res["disagreements"].append(dict(base, stream="vtt", impl=repr(cues)[:300], model="cue count %d" % k))
@@ -263,7 +275,8 @@ def stream_vtt(ctx, res, printed):
     res["distribution"]["vtt_captions_with_some_text_node_without_layout(excluded from the splitting oracle)"] = excluded_mixed
     # verbatim cue settings
     SETTINGS = ["align:left", "position:10%,start line:5% size:50%", "line:-1", "vertical:rl align:end", "line:0 position:0%",
-                "size:35% align:right", "position:12.5%", "foo:bar", "align:center", "line:5%,end", "region:r1", "a:b  c:d"]
+                "size:35% align:right", "position:12.5%", "foo:bar", "align:center", "line:5%,end", "region:r1", "a:b  c:d",
+                "Align:LEFT", "position:10%,START size:50%", "X-Custom:Value", "align:middle\tline:1"]
     nver = 0
     for i in range(ctx.n(250, 5000)):
         k = rng.randint(1, 4)
@@ -494,10 +507,11 @@ def replay(ctx, rec):
         except (ValueError, TypeError):
             return True, o.v
         return oracle_batch([(1310, [geom.a_layout_w(t.v), ws])])[0] != 1, o.v
-    if tag == "dfxp":
-        check_dfxp_case(rec["input"], tuple(rec["cfg"]), res)
-        return bool(res["violations"]), (res["violations"] or [{"what": "ok"}])[0]["what"]
-    if tag == "vtt":
-        check_vtt_case(rec["input"], tuple(rec["cfg"]), res, Printed(), {"split": 0, "mixed": 0})
-        return bool(res["violations"]), (res["violations"] or [{"what": "ok"}])[0]["what"]
+    if tag in ("dfxp", "vtt"):
+        if tag == "dfxp":
+            check_dfxp_case(rec["input"], tuple(rec["cfg"]), res)
+        else:
+            check_vtt_case(rec["input"], tuple(rec["cfg"]), res, Printed(), {"split": 0, "mixed": 0})
+        same = [v for v in res["violations"] if v.get("kind") == rec.get("kind")]
+        return bool(same), (same or [{"what": "ok (other kinds seen: %r)" % [v.get("kind") for v in res["violations"]]}])[0]["what"]
     return False, "unknown replay tag"
